@@ -658,6 +658,12 @@ def gen_case(rng, index, tier):
             ops.append(['compare', rng.randrange(len(pool)), rng.randrange(len(pool)), rng.randrange(8)])
         else:
             ops.append(['cached', rng.randrange(4), rng.choice([1, 2, 3]), rng.randrange(1 << 16)])
+    # twins that differ in the sign of a zero only (equal for Python, different values) are compared with each other, fresh, a few times
+    twins = [(i, j) for i in range(len(pool)) for j in range(len(pool)) if i != j and _negzero_variant(pool[i]) == pool[j]]
+    for i, j in twins[:2]:
+        for _ in range(rng.choice([1, 2])):
+            a, b = (i, j) if rng.random() < 0.5 else (j, i)
+            ops.insert(rng.randrange(len(ops) + 1), ['compare', a, b, rng.randrange(8)])
     return dict(kind='history', pool=pool, ops=ops)
 
 
